@@ -4,7 +4,7 @@
 From Coq Require Import List Bool ZArith NArith.
 Import ListNotations.
 From Verif Require Import Common.ListX Gen.Tables C16.UcTables C16.Lex C16.Reader C16.Spec C16.RegexRef
-  C16.ProofsTerm C16.ProofsLoc C16.ProofsTables C16.ProofsRefute.
+  C16.ProofsTerm C16.ProofsLoc C16.ProofsRender C16.ProofsTables C16.ProofsRefute.
 Local Open Scope N_scope.
 
 (** ** obligations on the tables regenerated from reader.py, runtime.py and the running CPython *)
@@ -86,6 +86,46 @@ Theorem C16_complete_malformed_not_eof :
     exists k, (l, c) = (fst (spec_loc s (length s)), snd (spec_loc s (length s)) + N.of_nat k).
 Proof. exact eof_only_at_end_spec. Qed.
 
+(** ** incomplete input: for every incomplete plain text of the grammar Spec.pctx (the input stops
+    inside a string, inside a list or vector after any complete plain elements, or right after a
+    quote or deref prefix, nested to any depth) the answer is an unexpected-EOF error located on the
+    last line of the input.  (Partial: plain forms only -- see Spec.pform; the remaining prefixes
+    ^ # ## #b #? are covered by C16_prefixes_at_end_are_eof and the refutation below.) *)
+Theorem C16_incomplete_is_eof_partial :
+  forall orc k, wf_ctx k = true ->
+    exists c, read_all orc (render_ctx k)
+              = Err (EEof (fst (spec_loc (render_ctx k) (length (render_ctx k)))) c).
+Proof. exact incomplete_is_eof. Qed.
+Example C16_incomplete_is_eof_nonvacuous :
+  wf_ctx ex_ctx = true /\ render_ctx ex_ctx = [40; 97; 32; 34; 98; 34; 32; 39; 91; 99].
+Proof. exact ex_ctx_ok. Qed.
+
+(** ** spans: every plain form f (Spec.pform) is read back from its text as [reify f]: each symbol,
+    list, vector, quote and deref form g inside it, whose text [render g] starts where the stream is
+    in state s, is tagged with the span from the location of s to the location of the stream
+    [length (render g)] characters later (ProofsRender.reify_loc; these are true locations by
+    C16_update_loc_spec); and reading the text of that span alone, [render g], yields a form equal to
+    the tagged one (locations aside).  (Partial: plain forms; sets, anonymous functions and
+    namespaced maps are refuted below.) *)
+Theorem C16_span_fidelity_partial :
+  forall orc f, wf f = true ->
+    read_all orc (render f) = Ok [reify f (init (render f))] (adv_n (length (render f)) (init (render f))) /\
+    forall g s, wf g = true ->
+      read_all orc (render g) = Ok [reify g (init (render g))] (adv_n (length (render g)) (init (render g))) /\
+      feq false (reify g s) (reify g (init (render g))) = true.
+Proof. exact span_fidelity. Qed.
+Theorem C16_span_is_text_extent :
+  forall g s, form_loc (reify g s) =
+    match g with
+    | PStr _ => None
+    | _ => let e := adv_n (length (render g)) s in Some (line s, col s, line e, col e)
+    end.
+Proof. exact reify_loc. Qed.
+Example C16_span_fidelity_nonvacuous :
+  wf ex_form = true /\
+  render ex_form = [40; 97; 32; 91; 39; 98; 32; 64; 99; 93; 32; 34; 120; 10; 121; 34; 41].
+Proof. exact ex_form_ok. Qed.
+
 (** ** witnesses *)
 Theorem C16_only_syntax_errors_syntax_quote_refuted :
   exists s, forall orc, read_all orc s = Err (EOther 1).
@@ -136,6 +176,11 @@ Print Assumptions C16_only_syntax_errors_nonvacuous.
 Print Assumptions C16_errors_carry_loc.
 Print Assumptions C16_update_loc_spec.
 Print Assumptions C16_complete_malformed_not_eof.
+Print Assumptions C16_incomplete_is_eof_partial.
+Print Assumptions C16_incomplete_is_eof_nonvacuous.
+Print Assumptions C16_span_fidelity_partial.
+Print Assumptions C16_span_is_text_extent.
+Print Assumptions C16_span_fidelity_nonvacuous.
 Print Assumptions C16_only_syntax_errors_syntax_quote_refuted.
 Print Assumptions C16_incomplete_is_eof_reader_macro_refuted.
 Print Assumptions C16_span_fidelity_set_refuted.
